@@ -8,52 +8,62 @@ import Jsonapi.Generated.Funcs
 import Jsonapi.Model.Filter
 namespace Jsonapi
 
-private theorem cmpOps_eq (op : GoString) (eq lt gt : Bool) :
-    cmpOps op eq lt gt =
-      (if op = [61] then eq else if op = [33, 61] then !eq else if op = [60] then lt
-       else if op = [60, 61] then lt || eq else if op = [62] then gt
-       else if op = [62, 61] then gt || eq else false) := by
-  unfold cmpOps Op.eq Op.ne Op.lt Op.le Op.gt Op.ge
-  rfl
+/-- an operator string is one of the six comparison operators, or none of them -/
+private theorem opCases (op : GoString) :
+    op = [61] ∨ op = [33, 61] ∨ op = [60] ∨ op = [60, 61] ∨ op = [62] ∨ op = [62, 61] ∨
+    (op ≠ [61] ∧ op ≠ [33, 61] ∧ op ≠ [60] ∧ op ≠ [60, 61] ∧ op ≠ [62] ∧ op ≠ [62, 61]) := by
+  by_cases h1 : op = [61]; · exact .inl h1
+  by_cases h2 : op = [33, 61]; · exact .inr (.inl h2)
+  by_cases h3 : op = [60]; · exact .inr (.inr (.inl h3))
+  by_cases h4 : op = [60, 61]; · exact .inr (.inr (.inr (.inl h4)))
+  by_cases h5 : op = [62]; · exact .inr (.inr (.inr (.inr (.inl h5))))
+  by_cases h6 : op = [62, 61]; · exact .inr (.inr (.inr (.inr (.inr (.inl h6)))))
+  exact .inr (.inr (.inr (.inr (.inr (.inr ⟨h1, h2, h3, h4, h5, h6⟩)))))
+
+/-! The proofs below split on the operator first and evaluate both sides for that operator,
+so they do not depend on the order in which the source lists its `case`s. -/
 
 /-- filter.go `checkStr` -/
 theorem Gen_checkStr_eq (op a b : GoString) : cmpPay op (.s a) (.s b) = some (Gen.checkStr op a b) := by
-  simp only [cmpPay]; unfold Gen.checkStr
-  rw [cmpOps_eq]
+  simp only [cmpPay, cmpOps, Op.eq, Op.ne, Op.lt, Op.le, Op.gt, Op.ge]
+  unfold Gen.checkStr
   congr 1
   rcases Std.lt_trichotomy a b with h | h | h
   · have h1 : ¬ b < a := fun h' => List.lt_asymm h h'
     have h2 : a ≠ b := fun e => by rw [e] at h; exact List.lt_irrefl _ h
-    simp [h, h1, h2]
-  · subst h; simp [List.lt_irrefl]
+    rcases opCases op with rfl | rfl | rfl | rfl | rfl | rfl | ⟨n1, n2, n3, n4, n5, n6⟩ <;> simp [*]
+  · subst h
+    have h1 : ¬ a < a := List.lt_irrefl _
+    rcases opCases op with rfl | rfl | rfl | rfl | rfl | rfl | ⟨n1, n2, n3, n4, n5, n6⟩ <;> simp [*]
   · have h1 : ¬ a < b := fun h' => List.lt_asymm h h'
     have h2 : a ≠ b := fun e => by rw [e] at h; exact List.lt_irrefl _ h
-    simp [h, h1, h2]
+    rcases opCases op with rfl | rfl | rfl | rfl | rfl | rfl | ⟨n1, n2, n3, n4, n5, n6⟩ <;> simp [*]
 
 /-- filter.go `checkInt` (every signed kind is widened to int64 before the call) -/
 theorem Gen_checkInt_eq (op : GoString) (a b : Int) : cmpPay op (.i a) (.i b) = some (Gen.checkInt op a b) := by
-  simp only [cmpPay]; unfold Gen.checkInt
-  rw [cmpOps_eq]
+  simp only [cmpPay, cmpOps, Op.eq, Op.ne, Op.lt, Op.le, Op.gt, Op.ge]
+  unfold Gen.checkInt
   congr 1
   rcases Int.lt_trichotomy a b with h | h | h
   · have h1 : ¬ b < a := by omega
     have h2 : a ≠ b := by omega
     have h3 : a ≤ b := by omega
     have h4 : ¬ b ≤ a := by omega
-    simp [h, h1, h2, h3, h4]
-  · subst h; simp
+    rcases opCases op with rfl | rfl | rfl | rfl | rfl | rfl | ⟨n1, n2, n3, n4, n5, n6⟩ <;> simp [*]
+  · subst h
+    rcases opCases op with rfl | rfl | rfl | rfl | rfl | rfl | ⟨n1, n2, n3, n4, n5, n6⟩ <;> simp [*]
   · have h1 : ¬ a < b := by omega
     have h2 : a ≠ b := by omega
     have h3 : ¬ a ≤ b := by omega
     have h4 : b ≤ a := by omega
-    simp [h, h1, h2, h3, h4]
+    rcases opCases op with rfl | rfl | rfl | rfl | rfl | rfl | ⟨n1, n2, n3, n4, n5, n6⟩ <;> simp [*]
 
 /-- filter.go `checkUint` (every unsigned kind is widened to uint64 before the call; the
 model keeps unsigned payloads as non-negative integers) -/
 theorem Gen_checkUint_eq (op : GoString) (a b : Nat) :
     cmpPay op (.i (a : Int)) (.i (b : Int)) = some (Gen.checkUint op a b) := by
-  simp only [cmpPay]; unfold Gen.checkUint
-  rw [cmpOps_eq]
+  simp only [cmpPay, cmpOps, Op.eq, Op.ne, Op.lt, Op.le, Op.gt, Op.ge]
+  unfold Gen.checkUint
   congr 1
   rcases Nat.lt_trichotomy a b with h | h | h
   · have h1 : ¬ b < a := by omega
@@ -63,8 +73,9 @@ theorem Gen_checkUint_eq (op : GoString) (a b : Nat) :
     have e1 : ((a : Int) < (b : Int)) := by omega
     have e2 : ¬ ((b : Int) < (a : Int)) := by omega
     have e3 : (a : Int) ≠ (b : Int) := by omega
-    simp [h, h1, h2, h3, h4, e1, e2, e3]
-  · subst h; simp
+    rcases opCases op with rfl | rfl | rfl | rfl | rfl | rfl | ⟨n1, n2, n3, n4, n5, n6⟩ <;> simp [*]
+  · subst h
+    rcases opCases op with rfl | rfl | rfl | rfl | rfl | rfl | ⟨n1, n2, n3, n4, n5, n6⟩ <;> simp [*]
   · have h1 : ¬ a < b := by omega
     have h2 : a ≠ b := by omega
     have h3 : ¬ a ≤ b := by omega
@@ -72,19 +83,20 @@ theorem Gen_checkUint_eq (op : GoString) (a b : Nat) :
     have e1 : ¬ ((a : Int) < (b : Int)) := by omega
     have e2 : ((b : Int) < (a : Int)) := by omega
     have e3 : (a : Int) ≠ (b : Int) := by omega
-    simp [h, h1, h2, h3, h4, e1, e2, e3]
+    rcases opCases op with rfl | rfl | rfl | rfl | rfl | rfl | ⟨n1, n2, n3, n4, n5, n6⟩ <;> simp [*]
 
 /-- filter.go `checkBool` -/
 theorem Gen_checkBool_eq (op : GoString) (a b : Bool) : cmpPay op (.b a) (.b b) = some (Gen.checkBool op a b) := by
-  simp only [cmpPay]; unfold Gen.checkBool Op.eq Op.ne
-  cases a <;> cases b <;> simp
+  simp only [cmpPay, Op.eq, Op.ne]; unfold Gen.checkBool
+  congr 1
+  rcases opCases op with rfl | rfl | rfl | rfl | rfl | rfl | ⟨n1, n2, n3, n4, n5, n6⟩ <;>
+    cases a <;> cases b <;> simp [*]
 
 /-- filter.go `checkTime` -/
 theorem Gen_checkTime_eq (op : GoString) (a b : Time) : cmpPay op (.t a) (.t b) = some (Gen.checkTime op a b) := by
-  simp only [cmpPay]; unfold Gen.checkTime
-  rw [cmpOps_eq]
+  simp only [cmpPay, cmpOps, Op.eq, Op.ne, Op.lt, Op.le, Op.gt, Op.ge]; unfold Gen.checkTime
   congr 1
-  simp only [decide_eq_true_eq]
+  rcases opCases op with rfl | rfl | rfl | rfl | rfl | rfl | ⟨n1, n2, n3, n4, n5, n6⟩ <;> simp [*]
 
 /-- filter.go `checkIn` (the `in` and `has` operators): membership -/
 theorem Gen_checkIn_eq (id : GoString) (ids : List GoString) : Gen.checkIn id ids = ids.contains id := by
